@@ -249,7 +249,66 @@ def prop_step(case, ctx):
     ctx.nontrivial(max(spec["r"]) >= 2)
 
 
+# ------------------------------------------------------------------------------------------- long chains (stabilised variant)
+# hundreds of ordinary cores: the weight that travels with the sweep is the product of all core norms, far outside the float range
+# unless it is taken out step by step; no dense copy exists, the norm reference is a Gram recursion with an unbounded exponent
+
+@st.composite
+def long_cases(draw, tier):
+    d = draw(st.sampled_from([400, 700, 1000, 1500] if tier == "quick" else [400, 700, 1000, 1500, 2500, 4000]))
+    return {"d": d, "n": draw(st.integers(2, 3)), "r": draw(st.integers(1, 2)), "seed": draw(gen.seeds), "scale2": draw(st.sampled_from([0, 0, 2, -2, 5, -5])),
+            "k": draw(st.sampled_from(["first", "last", "mid", "draw"])), "kd": draw(st.integers(0, 10 ** 6))}
+
+
+def prop_long(case, ctx):
+    d, n, r = case["d"], case["n"], case["r"]
+    rng = np.random.default_rng(case["seed"])
+    Y = [np.ldexp(rng.normal(size=(1 if k == 0 else r, n, 1 if k == d - 1 else r)), case["scale2"]) for k in range(d)]
+    k = {"first": 0, "last": d - 1, "mid": d // 2, "draw": case["kd"] % d}[case["k"]]
+    ctx.label(f"d={d}", f"r={r}", "pivot:" + case["k"], f"core_scale=2^{case['scale2']}")
+    ctx.nontrivial(True)
+    snap = snapshot(Y)
+    res = ctx.lib(teneva.orthogonalize, Y, k, True)
+    ctx.check(isinstance(res, tuple) and len(res) == 2, "orthogonalize(use_stab=True) must return (Z, p)")
+    Z, p = res
+    unchanged(ctx, Y, snap, "orthogonalize")
+    ctx.check(isinstance(p, int) and not isinstance(p, bool), "orthogonalize: exponent p is not a Python int", p=repr(p))
+    why = oracle.wellformed(Z, [n] * d)
+    ctx.check(why is None, f"orthogonalize(use_stab) on a chain of {d} cores: result not well-formed / finite: {why}", k=k)
+    for j, G in enumerate(Z):
+        if j < k:
+            ctx.check(oracle.ortho_defect_left(G) <= 64 * EPS * max(G.shape[0] * G.shape[1], G.shape[2]), "orthogonalize: core left of the pivot does not have orthonormal columns", core=j, k=k)
+        elif j > k:
+            ctx.check(oracle.ortho_defect_right(G) <= 64 * EPS * max(G.shape[0], G.shape[1] * G.shape[2]), "orthogonalize: core right of the pivot does not have orthonormal rows", core=j, k=k)
+    mx = float(np.max(np.abs(Z[k])))
+    ctx.check(1 - 4 * EPS <= mx < 2, "orthogonalize(use_stab): largest modulus of the pivot core not in [1, 2)", max=mx, k=k, p=p)
+    g, q = oracle.gram_ref(Y, Y)                    # <Y, Y> = g * 2**q
+    ref = 0.5 * (math.log2(g) + q)
+    got = math.log2(fro(Z[k])) + p
+    ctx.check(abs(got - ref) <= 1e-9 * max(1.0, abs(ref)) + 64 * d * EPS, "orthogonalize(use_stab): log2(||Z[k]|| 2^p) is not log2 ||Y||", got=got, ref=ref, d=d, k=k)
+    # the same tensor: compare a few entries through their exactly scaled chains (values relative to the norm, unbounded exponent)
+    for t in range(3):
+        idx = [int(x) for x in np.random.default_rng(case["seed"] + t + 1).integers(0, n, size=d)]
+        def chain(T):
+            v = np.ones((1,)); e = 0
+            for G, i in zip(T, idx):
+                v = v @ G[:, i, :]
+                m = float(np.max(np.abs(v)))
+                if m == 0:
+                    return 0.0, 0
+                ee = math.frexp(m)[1]
+                v = np.ldexp(v, -ee); e += ee
+            return float(v[0]), e
+        a, ea = chain(Y)
+        b, eb = chain(Z)
+        eb += p
+        if a != 0 and b != 0:
+            la, lb = math.log2(abs(a)) + ea, math.log2(abs(b)) + eb
+            ctx.check((a > 0) == (b > 0) and abs(la - lb) <= 1e-6 * d, "orthogonalize(use_stab): an entry of 2^p Z differs from the entry of Y", log2_Y=la, log2_Z=lb, d=d, k=k)
+
+
 SUBCHECKS = [
     Sub("orthogonalize", prop_orth, strategy=cases, quick=300, thorough=2500),
     Sub("single_step", prop_step, strategy=cases, quick=150, thorough=1500),
+    Sub("long", prop_long, strategy=long_cases, quick=3, thorough=40),
 ]
